@@ -58,7 +58,9 @@ theorem pot_is_pot : startswith Field.pot.name "POT-".toList = true ∧ startswi
 theorem po_is_po : startswith Field.po.name "POT-".toList = false ∧ startswith Field.po.name "PO-".toList = true := by decide
 
 /-- the body of `for date in dates:` as regenerated, for a field `f` (`isPo`: what `field.startswith('PO-')` answers), = the model's `checkOne` -/
-theorem date_body (c : Ctx) (f : Field) (pub isPo : Bool) (hpo : isPo = decide (f = .po)) (date : List Char) (out : List Tag) :
+theorem date_body (c : Ctx) (f : Field) (pub isPo : Bool) (hpo : isPo = decide (f = .po))
+    (date : List Char) (out : List Tag)
+    (neq : List Char → Bool) (hneq : ∀ b, neq b = decide (date ≠ b)) :
     (if (c.isTemplate && isPo && decide (date = DateTables.boilerplateDate)) = true then (Except.ok out : Except DErr (List Tag))
      else
        Except.bind (if (date.contains 'T' && pub) = true then Except.ok (some "-0000".toList) else Except.ok none) (fun tz_hint =>
@@ -66,7 +68,7 @@ theorem date_body (c : Ctx) (f : Field) (pub isPo : Bool) (hpo : isPo = decide (
            [(isBoilerplate, Except.ok (out ++ [⟨"boilerplate-in-date", [Arg.safe (f.name ++ ":".toList), Arg.str date]⟩])),
             (isDateSyntaxError, Except.ok (out ++ [⟨"invalid-date", [Arg.safe (f.name ++ ":".toList), Arg.str date]⟩]))]
            (fun fixed_date =>
-             Except.bind (if decide (date ≠ fixed_date) = true then
+             Except.bind (if neq fixed_date = true then
                  Except.ok (out ++ [⟨"invalid-date", [Arg.safe (f.name ++ ":".toList), Arg.str date, Arg.str "=>".toList, Arg.str fixed_date]⟩])
                else Except.ok out) (fun out =>
                Except.bind (GettextDate.parse_date fixed_date) (fun stamp =>
@@ -78,6 +80,7 @@ theorem date_body (c : Ctx) (f : Field) (pub isPo : Bool) (hpo : isPo = decide (
                    else Except.ok out)))))).toOption
       = (checkOne c.now f c.isTemplate pub date).map (out ++ ·) := by
   subst hpo
+  simp only [hneq]
   unfold checkOne
   by_cases hex : c.isTemplate = true ∧ f = .po ∧ date = DateTables.boilerplateDate
   · obtain ⟨h1, h2, h3⟩ := hex
@@ -213,13 +216,17 @@ theorem check_dates_eq (c : Ctx) (out : List Tag) :
   case ha =>
     intro out
     simp only [hk2, pot_name, pot_is_pot.1, pot_is_pot.2]
-    exact field_body c .pot true false (by decide) (by decide) c.pot out _
-      (fun date out => date_body c .pot (isPublican c.contentType) false (by decide) date out)
+    refine field_body c .pot true false (by decide) (by decide) c.pot out _ ?_
+    intro date out
+    refine date_body c .pot (isPublican c.contentType) false (by decide) date out _ ?_
+    intro b; first | rfl | simp [ne_comm]
   case hb =>
     intro out
     simp only [hk3, po_name, po_is_po.1, po_is_po.2]
-    exact field_body c .po false true (by decide) (by decide) c.po out _
-      (fun date out => date_body c .po (isPublican c.contentType) true (by decide) date out)
+    refine field_body c .po false true (by decide) (by decide) c.po out _ ?_
+    intro date out
+    refine date_body c .po (isPublican c.contentType) true (by decide) date out _ ?_
+    intro b; first | rfl | simp [ne_comm]
   cases checkField c .pot c.pot with
   | none => rfl
   | some a => cases checkField c .po c.po <;> rfl
